@@ -649,7 +649,8 @@ def plan_bf(prog: Any, naming: str, level: str) -> list[dict]:
     positions x cut types (n_trials "n" or KeyboardInterrupt "ki"); "edge" = positions
     {1, total-2, total-1}.
     'full'  (thorough, depth <= 2), aps=F:
-              seed 0 x leaf failure patterns x every schedule with <= 2 cuts;
+              seed 0 x leaf failure patterns x every schedule with <= 2 cuts (KeyboardInterrupt
+              cuts inside 2-cut schedules only for {none, evaluation 1 fails, evaluation 0 pruned});
               otherwise (seed 0 x inner, seeds 1,2 x leaf + inner): every 1-cut schedule and the
               2-cut n-only schedules over edge;
             aps=T: seed 0 x leaf failure patterns x every n-only schedule with <= 1 cut; seeds 1,2 x
@@ -690,8 +691,10 @@ def plan_bf(prog: Any, naming: str, level: str) -> list[dict]:
     if level == "full":
         for seed in (0, 1, 2):
             for f, tot in leaff + inner:
-                if seed == 0 and f[0] != "inner":
+                if seed == 0 and f in (["none"], ["fail", 1], ["prune", 0]):
                     scheds = schedules(tot, 2)
+                elif seed == 0 and f[0] != "inner":
+                    scheds = schedules(tot, 1) + two(schedules(tot, 2, ki=False))
                 else:
                     scheds = schedules(tot, 1) + two(schedules(tot, 2, [1, tot - 2, tot - 1], ki=False))
                 for cuts in scheds:
